@@ -240,10 +240,52 @@ pub fn suite_tryinit(dir: &str, seed: u64, thorough: bool, st: &mut Stats) {
             }
             if rng.chance(1, 6) { slack = u64::MAX - rng.below(1000); }
         }
+        // values exactly at, just below and just above every limit the reader checks (accepted and refused side)
+        let mut force_off: Option<u64> = None;
+        if i % 12 == 0 {
+            kind = "boundary";
+            let delta = |rng: &mut Rng| -> i64 { *rng.pick(&[-1i64, 0, 0, 1]) };
+            let rolling = d.params.map(|p| p[5] != 2).unwrap_or(false);
+            match rng.below(if rolling { 11 } else { 7 }) {
+                0 => { // last chunk ends exactly at / around 2^64
+                    let x: u64 = *rng.pick(&[1u64 << 20, 4096, 1 << 40]);
+                    force_off = Some(x);
+                    if let Some(last) = d.descs.last_mut() {
+                        let sz = last.archive_size.max(1) as u128;
+                        last.archive_size = sz as u32;
+                        let v = (1u128 << 64) - x as u128 - sz;
+                        let v = (v as i128 + *rng.pick(&[-2i128, -1, 0, 0, 1])) as u128;
+                        last.archive_offset = v.min(u64::MAX as u128) as u64;
+                    }
+                }
+                1 => { // a chunk starts exactly at / around 2^64
+                    let x: u64 = *rng.pick(&[1u64 << 20, 4096]);
+                    force_off = Some(x);
+                    if let Some(first) = d.descs.first_mut() {
+                        let v = ((1u128 << 64) - x as u128) as i128 + *rng.pick(&[-1i128, 0, 1]);
+                        first.archive_offset = (v as u128).min(u64::MAX as u128) as u64;
+                        if rng.chance(1, 2) { first.archive_size = 0; }
+                    }
+                }
+                2 => { let nd = d.descs.len() as u32; if nd > 0 { d.order.push(nd - 1); if rng.chance(1, 2) { d.order.push(nd); } } }
+                3 => { if let Some(p) = d.params.as_mut() { p[4] = *rng.pick(&[0u32, 1, 2, 3, 4, 5, 63, 64, 65, 128]); } }
+                4 => { d.comp = Some([*rng.pick(&[0u32, 1, 2, 3, 4]), *rng.pick(&[0u32, 1, 9, 10, 11, 12, 19, 21, 22, 23])]); }
+                5 => { if let Some(p) = d.params.as_mut() { p[2] = *rng.pick(&[0u32, 1, 2, u32::MAX]); if p[5] != 2 { p[3] = p[3].min(p[2].max(1)); p[1] = p[1].min(p[2]); } } }
+                6 => { slack = 0; force_off = Some((14 + 72) as u64); } // data offset inside the header (set below when known)
+                7 => { if let Some(p) = d.params.as_mut() { p[1] = (p[2] as i64 + delta(&mut rng)).max(0) as u32; } }               // min vs max
+                8 => { if let Some(p) = d.params.as_mut() { p[3] = (p[2] as i64 + delta(&mut rng)).max(0) as u32; p[1] = p[1].min(p[2]); } } // window vs max
+                9 => { if let Some(p) = d.params.as_mut() { p[0] = *rng.pick(&[0u32, 1, 2, 29, 30, 31, 32]); } }
+                _ => { if let Some(p) = d.params.as_mut() { let v = p[2].max(1); p[1] = v; p[2] = v; p[3] = (v as i64 + delta(&mut rng)).max(0) as u32; } } // min = max = window(+-1)
+            }
+        }
         let wild = rng.chance(1, 2);
         let dict_bytes = d.encode_free(&mut rng, wild);
         let hlen = 14 + dict_bytes.len() as u64 + 72;
-        let offset = if slack == 0 { None } else { Some(if slack > (1 << 60) { slack } else { hlen + slack }) };
+        let mut offset = if slack == 0 { None } else { Some(if slack > (1 << 60) { slack } else { hlen + slack }) };
+        if let Some(x) = force_off {
+            // `14 + 72` marks "relative to the header": the data offset exactly at / around the header length
+            offset = Some(if x == 14 + 72 { (hlen as i64 + *rng.pick(&[-1i64, 0, 1])) as u64 } else { x });
+        }
         let mut bytes = make_header(&dict_bytes, legacy, offset);
         // some payload after the header
         for _ in 0..rng.below(50) { bytes.push(rng.next() as u8); }
